@@ -66,6 +66,10 @@ type Sub struct {
 	StallAt int   `json:"stall_at,omitempty"`
 	StallNs int64 `json:"stall_ns,omitempty"`
 	SlowNs  int64 `json:"slow_ns,omitempty"`
+	// CancelAt > 0: the client cancels its RPC after reading that many
+	// responses (a subscriber going away while others stay). Its own stream is
+	// not judged afterwards; the others must not notice.
+	CancelAt int `json:"cancel_at,omitempty"`
 	// Hostile (C12): the request is adversarial; only "no panic" is judged.
 	Hostile string `json:"hostile,omitempty"`
 }
@@ -244,6 +248,38 @@ func (H) Generate(rng *simrt.Rand, prop, tier string) (any, simrt.Config) {
 		sc.Stats = true
 	}
 	sc.NoDup = rng.Chance(0.1)
+	// Twin subscribers: the same query registered by two clients (the same
+	// node of the matcher), one of which often goes away.
+	if prop != "C12" && len(sc.Subs) >= 2 && rng.Chance(0.3) {
+		a, b := &sc.Subs[0], &sc.Subs[1]
+		if a.Mode == "stream" && a.Hostile == "" && b.Hostile == "" {
+			b.Mode, b.Target, b.Origin, b.Prefix, b.UpdatesOnly = a.Mode, a.Target, a.Origin, a.Prefix, a.UpdatesOnly
+			b.Paths = append([]SubPath(nil), a.Paths...)
+			b.Polls, b.PollIdleNs = 0, 0
+			if b.StallNs == 0 && b.SlowNs == 0 && rng.Chance(0.6) {
+				b.CancelAt = 1 + rng.Intn(6)
+			}
+		}
+	}
+	if prop != "C12" {
+		for i := range sc.Subs {
+			sb := &sc.Subs[i]
+			if sb.Mode != "once" && sb.Hostile == "" && sb.StallNs == 0 && sb.SlowNs == 0 && sb.CancelAt == 0 && rng.Chance(0.1) {
+				sb.CancelAt = 1 + rng.Intn(6)
+			}
+		}
+		// quiet periods in the targets' streams, so that writes also happen
+		// after send timeouts have fired and subscribers have gone away
+		for i := range sc.Streams {
+			if len(sc.Streams[i]) > 0 && rng.Chance(0.35) {
+				at := rng.Intn(len(sc.Streams[i]) + 1)
+				d := int64(time.Second) + int64(rng.Intn(int(2*sc.TimeoutNs)))
+				ops := append([]cacheh.Op(nil), sc.Streams[i][:at]...)
+				ops = append(ops, cacheh.Op{K: "wait", V: d})
+				sc.Streams[i] = append(ops, sc.Streams[i][at:]...)
+			}
+		}
+	}
 	return sc, cfg
 }
 
@@ -317,6 +353,11 @@ func (H) Shrinks(s any) []any {
 			c.Subs[i].Polls--
 			out = append(out, c)
 		}
+		if sb.CancelAt > 0 {
+			c := clone()
+			c.Subs[i].CancelAt = 0
+			out = append(out, c)
+		}
 	}
 	for i, t := range sc.Streams {
 		for j, op := range t {
@@ -384,6 +425,7 @@ type wrec struct {
 	noti     *pb.Notification
 	class    string
 	inv, ret int64
+	startNs  int64 // virtual time when the operation was invoked
 	endNs    int64 // virtual time when the operation returned
 }
 
@@ -414,6 +456,7 @@ type subRec struct {
 	stallTo   int64 // stamp at which it resumed (0 = never)
 	deq       []deqRec
 	triggers  []int64 // stamps at which poll triggers were sent
+	cancelled int64   // stamp at which the client cancelled its own RPC (CancelAt)
 }
 
 type deqRec struct {
@@ -532,7 +575,11 @@ func (w *world) runStream(x *common.Exec, i int, ops []cacheh.Op, into *[]wrec) 
 	}
 	defer func() { w.curInv[me] = 0 }()
 	for _, op := range ops {
-		r := wrec{target: target, op: op, inv: simrt.Stamp()}
+		if op.K == "wait" { // the target is quiet for a while (virtual time)
+			simrt.Sleep(time.Duration(op.V))
+			continue
+		}
+		r := wrec{target: target, op: op, inv: simrt.Stamp(), startNs: int64(x.R.Now())}
 		w.curInv[me] = r.inv
 		switch op.K {
 		case "upd":
@@ -766,6 +813,12 @@ func (w *world) reader(x *common.Exec, ctx context.Context, sr *subRec) {
 		}
 		n++
 		sr.resps = append(sr.resps, resp{stamp: simrt.Stamp(), ns: int64(x.R.Now()), r: m})
+		if sr.sub.CancelAt > 0 && n >= sr.sub.CancelAt {
+			sr.cancelled = simrt.Stamp()
+			stop() // end the RPC from this task, not from the context's own goroutine
+			st.End(status.Error(codes.Canceled, "client cancelled"))
+			return
+		}
 		if m.GetSyncResponse() && sr.sub.Mode == "poll" {
 			if polls < sr.sub.Polls {
 				polls++
@@ -927,7 +980,61 @@ func (w *world) targetsOf(sr *subRec) []string {
 	return []string{sr.sub.Target}
 }
 
+// countFaults reports the faults that actually fired in this run (read from
+// the records after all tasks have parked).
+func (w *world) countFaults(x *common.Exec) {
+	for _, sr := range w.subs {
+		if !sr.started {
+			continue
+		}
+		if sr.cancelled != 0 {
+			x.Fault("subscriber-cancels-rpc")
+		}
+		if sr.stallFrom != 0 {
+			if sr.sub.StallNs < 0 {
+				x.Fault("subscriber-stalls-for-good")
+			} else {
+				x.Fault("subscriber-stalls-transiently")
+			}
+		}
+		if sr.sub.SlowNs > 0 && len(sr.resps) > 0 {
+			x.Fault("subscriber-reads-slowly")
+		}
+		if sr.sub.PollIdleNs > int64(w.sc.TimeoutNs) && len(sr.triggers) > 0 {
+			x.Fault("poll-client-idle-longer-than-send-timeout")
+		}
+		if sr.sub.Hostile != "" {
+			x.Fault("hostile-request:" + sr.sub.Hostile)
+		}
+		if sr.ended && strings.Contains(fmt.Sprint(sr.recvErr), "timed out") {
+			x.Fault("send-timeout-fired")
+		}
+	}
+	for _, ws := range w.w {
+		for _, r := range ws {
+			switch r.op.K {
+			case "reset", "remove", "add", "connerr":
+				x.Fault("target-" + r.op.K)
+			}
+			if r.class == "stale" || r.class == "future" {
+				x.Fault("update-rejected-" + r.class)
+			}
+		}
+	}
+	for _, ops := range w.sc.Streams {
+		for _, op := range ops {
+			if op.K == "wait" {
+				x.Fault("target-quiet-period")
+			}
+		}
+	}
+	if w.sc.ACL != nil {
+		x.Fault("acl-installed")
+	}
+}
+
 func (w *world) judge(x *common.Exec, final map[string]map[string]string, finalTS map[string]map[string]int64) {
+	w.countFaults(x)
 	sc := w.sc
 	w.feed = nil
 	for _, f := range w.feeds {
@@ -1007,6 +1114,9 @@ func (w *world) judge(x *common.Exec, final map[string]map[string]string, finalT
 		}
 		if rpcDone && rpcCode == codes.NotFound {
 			continue // the target did not exist when the call arrived
+		}
+		if sr.cancelled != 0 {
+			continue // went away by itself; what matters is that the others do not notice
 		}
 		if rpcDone && rpcCode == codes.PermissionDenied && sc.ACL != nil && sr.sub.Target != "*" && !w.allowed(sr, sr.sub.Target) {
 			continue // denied; whether the target existed at that instant is not known to the oracle
@@ -1438,7 +1548,7 @@ func (w *world) judgeStalls(x *common.Exec) {
 		for _, ws := range w.w {
 			for _, r := range ws {
 				x.Oblige(1)
-				if r.endNs > 0 {
+				if r.endNs > r.startNs {
 					anySleep := false
 					for _, s := range sc.Subs {
 						if s.SlowNs > 0 || s.StallNs > 0 {
@@ -1446,7 +1556,7 @@ func (w *world) judgeStalls(x *common.Exec) {
 						}
 					}
 					if !anySleep {
-						x.Violate("C08/writer-waited", "operation %s on %s returned at virtual time %v: accepting an update waited for a timer\n%s", r.op.K, r.target, time.Duration(r.endNs), w.history())
+						x.Violate("C08/writer-waited", "operation %s on %s took %v of virtual time: accepting an update waited for a timer\n%s", r.op.K, r.target, time.Duration(r.endNs-r.startNs), w.history())
 						return
 					}
 				}
@@ -1475,7 +1585,7 @@ func (w *world) judgeStalls(x *common.Exec) {
 			}
 		}
 		// (3)/(5) backlog and duplicate accounting for readers that came back
-		if sr.sub.Mode == "stream" && sr.sub.StallNs >= 0 && !sr.ended {
+		if sr.sub.Mode == "stream" && sr.sub.StallNs >= 0 && !sr.ended && sr.cancelled == 0 {
 			pats, ok := subPatterns(sr.sub)
 			if !ok {
 				continue
@@ -1575,7 +1685,7 @@ func (w *world) judgeEnd(x *common.Exec) {
 	// C14: a single-target stream whose target was removed ends with OK after
 	// delivering the whole-target delete.
 	for _, sr := range w.subs {
-		if sr.sub.Mode != "stream" || sr.sub.Target == "*" || !sr.started || sr.sub.StallNs != 0 || sr.sub.Hostile != "" {
+		if sr.sub.Mode != "stream" || sr.sub.Target == "*" || !sr.started || sr.sub.StallNs != 0 || sr.sub.Hostile != "" || sr.cancelled != 0 {
 			continue
 		}
 		if !w.allowed(sr, sr.sub.Target) || w.badUser(sr) {
